@@ -18,6 +18,8 @@ pub enum Mode {
     Lib,
     /// re-use the program this party type-checked once (same definition maps, new builder maps)
     Typed,
+    /// process history: compile ANOTHER program first (`warm_src`); its result is not compared
+    Warm,
 }
 
 #[derive(Clone, Debug, Serialize, Deserialize, PartialEq, Eq)]
@@ -30,12 +32,19 @@ pub struct Step {
     pub perm: Vec<usize>,
     #[serde(default)]
     pub cap: usize,
+    /// only for Mode::Warm: the other program this process compiled earlier
+    #[serde(default)]
+    pub warm_src: Option<String>,
 }
 
 #[derive(Clone, Debug, Serialize, Deserialize, PartialEq, Eq)]
 pub struct PartySpec {
     pub keys: Keys,
     pub steps: Vec<Step>,
+    /// run this party as a fresh OS process (its main thread takes the keys) instead of a thread:
+    /// covers process-wide state (statics), which threads of one simulator process would share
+    #[serde(default)]
+    pub process: bool,
 }
 
 #[derive(Clone, Debug, Serialize, Deserialize)]
@@ -44,9 +53,9 @@ pub struct World {
     pub parties: Vec<PartySpec>,
 }
 
-#[derive(Clone, Debug)]
+#[derive(Clone, Debug, Serialize, Deserialize)]
 pub struct ProbeRec {
-    pub site: &'static str,
+    pub site: String,
     pub keys: usize,
     pub fp: u64,
 }
@@ -57,7 +66,7 @@ pub type WorldResult = Vec<Result<Vec<(Outcome, Vec<ProbeRec>)>, String>>;
 fn drain_probes() -> Vec<ProbeRec> {
     garble_lang::verif_hooks::drain()
         .into_iter()
-        .map(|p| ProbeRec { site: p.site, keys: p.keys, fp: p.order_fingerprint })
+        .map(|p| ProbeRec { site: p.site.to_string(), keys: p.keys, fp: p.order_fingerprint })
         .collect()
 }
 
@@ -70,6 +79,10 @@ fn run_steps(prog: &ProgSpec, steps: &[Step]) -> Vec<(Outcome, Vec<ProbeRec>)> {
         let o = match s.mode {
             Mode::Src => outcome_of(guarded(|| compile_src(&prog.src, &s.fn_name, consts, s.opts, false))).0,
             Mode::Lib => outcome_of(guarded(|| compile_src(&prog.src, &s.fn_name, consts, s.opts, true))).0,
+            Mode::Warm => {
+                let other = s.warm_src.clone().unwrap_or_default();
+                outcome_of(guarded(|| compile_src(&other, "main", std::collections::HashMap::new(), Opts { register: false, dedup: true }, false))).0
+            }
             Mode::Typed => {
                 if typed.is_none() {
                     let r = guarded(|| garble_lang::check(&prog.src));
@@ -93,11 +106,43 @@ fn run_steps(prog: &ProgSpec, steps: &[Step]) -> Vec<(Outcome, Vec<ProbeRec>)> {
 pub fn run_world(w: &World) -> WorldResult {
     let mut res = vec![];
     for party in &w.parties {
+        if party.process {
+            res.push(run_process_party(&w.program, party));
+            continue;
+        }
         let prog = w.program.clone();
         let steps = party.steps.clone();
         res.push(run_party(party.keys, move || run_steps(&prog, &steps)));
     }
     res
+}
+
+/// A party as a real, fresh OS process: re-executes this binary (`c06-child`), whose main thread
+/// takes the keys from the seam and runs the steps.
+fn run_process_party(prog: &ProgSpec, party: &PartySpec) -> Result<Vec<(Outcome, Vec<ProbeRec>)>, String> {
+    use std::io::Write;
+    let exe = std::env::current_exe().map_err(|e| e.to_string())?;
+    let single = World { program: prog.clone(), parties: vec![PartySpec { process: false, ..party.clone() }] };
+    let mut child = std::process::Command::new(&exe)
+        .arg("c06-child")
+        .env("RUST_BACKTRACE", "0")
+        .stdin(std::process::Stdio::piped())
+        .stdout(std::process::Stdio::piped())
+        .stderr(std::process::Stdio::null())
+        .spawn()
+        .map_err(|e| format!("spawn: {e}"))?;
+    child
+        .stdin
+        .take()
+        .unwrap()
+        .write_all(serde_json::to_string(&single).unwrap().as_bytes())
+        .map_err(|e| e.to_string())?;
+    let out = child.wait_with_output().map_err(|e| e.to_string())?;
+    if !out.status.success() {
+        return Err(format!("process party died: {}", out.status));
+    }
+    let line = out.stdout.split(|b| *b == b'\n').next().unwrap_or(b"[]");
+    serde_json::from_slice::<Vec<(Outcome, Vec<ProbeRec>)>>(line).map_err(|e| format!("process party output: {e}"))
 }
 
 #[derive(Clone, Debug)]
@@ -129,6 +174,10 @@ pub fn judge(w: &World, r: &WorldResult) -> (Vec<Finding>, BTreeMap<String, u64>
         match pr {
             Ok(outs) => {
                 for (si, (s, (o, _))) in party.steps.iter().zip(outs.iter()).enumerate() {
+                    if s.mode == Mode::Warm {
+                        *counters.entry("warm_compilations".into()).or_insert(0) += 1;
+                        continue;
+                    }
                     *counters.entry(format!("outcome_{}", o.class())).or_insert(0) += 1;
                     groups
                         .entry((s.fn_name.clone(), s.opts.name()))
@@ -223,7 +272,7 @@ impl Plan {
 }
 
 fn simple_step(fn_name: &str, opts: Opts) -> Step {
-    Step { fn_name: fn_name.into(), opts, mode: Mode::Src, perm: vec![], cap: 0 }
+    Step { fn_name: fn_name.into(), opts, mode: Mode::Src, perm: vec![], cap: 0, warm_src: None }
 }
 
 fn draw_party(p: &mut Prng, fns: &[String], nconsts: usize, light: bool) -> PartySpec {
@@ -259,10 +308,55 @@ fn draw_party(p: &mut Prng, fns: &[String], nconsts: usize, light: bool) -> Part
                 p.shuffle(&mut perm);
             }
             let cap = if p.chance(1, 2) { 0 } else { p.below(64) as usize };
-            Step { fn_name: f, opts: o, mode, perm, cap }
+            Step { fn_name: f, opts: o, mode, perm, cap, warm_src: None }
         })
         .collect();
-    PartySpec { keys, steps }
+    PartySpec { keys, steps, process: false }
+}
+
+const KEYWORDS: &[&str] = &[
+    "pub", "fn", "let", "mut", "if", "else", "match", "for", "in", "as", "true", "false", "bool", "usize", "u8", "u16", "u32", "u64", "i8",
+    "i16", "i32", "i64", "struct", "enum", "const", "main", "max", "min", "join", "join_iter", "fold", "map", "update", "zz_in",
+];
+
+/// Another program that binds the identifiers of `src` in reverse lexicographic order and assigns
+/// them in both branches of a conditional: the most adversarial "what else did this process
+/// compile before" for any state keyed by first-seen order of names.
+pub fn adversarial_warm(src: &str) -> String {
+    let mut ids: BTreeSet<String> = BTreeSet::new();
+    let b = src.as_bytes();
+    let mut i = 0;
+    while i < b.len() {
+        if b[i].is_ascii_alphabetic() || b[i] == b'_' {
+            let s = i;
+            while i < b.len() && (b[i].is_ascii_alphanumeric() || b[i] == b'_') {
+                i += 1;
+            }
+            let id = &src[s..i];
+            let prev_is_digit = s > 0 && b[s - 1].is_ascii_digit();
+            if id.chars().next().map(|c| c.is_ascii_lowercase()).unwrap_or(false) && !KEYWORDS.contains(&id) && !prev_is_digit && id != "_" {
+                ids.insert(id.to_string());
+            }
+        } else {
+            i += 1;
+        }
+    }
+    let ids: Vec<String> = ids.into_iter().rev().take(40).collect();
+    let mut out = String::from("pub fn main(zz_in: bool) -> bool {\n");
+    for id in &ids {
+        out.push_str(&format!("    let mut {id} = zz_in;\n"));
+    }
+    if ids.len() >= 2 {
+        let fwd: String = ids.iter().map(|id| format!("{id} = !zz_in; ")).collect();
+        let rev: String = ids.iter().rev().map(|id| format!("{id} = zz_in; ")).collect();
+        out.push_str(&format!("    if zz_in {{ {fwd}}} else {{ {rev}}}\n"));
+    }
+    out.push_str(&format!("    zz_in{}\n}}\n", ids.first().map(|id| format!(" ^ {id}")).unwrap_or_default()));
+    out
+}
+
+fn warm_step(src: String) -> Step {
+    Step { fn_name: "main".into(), opts: Opts { register: false, dedup: true }, mode: Mode::Warm, perm: vec![], cap: 0, warm_src: Some(src) }
 }
 
 pub fn make_world(plan: &Plan, seed: u64, idx: u64) -> (World, String, Prng) {
@@ -299,7 +393,28 @@ pub fn make_world(plan: &Plan, seed: u64, idx: u64) -> (World, String, Prng) {
     }
     let light = src.len() > 6000;
     let nparties = if light { plan.tier.parties.min(6) } else { plan.tier.parties };
-    let parties = (0..nparties).map(|_| draw_party(&mut p, &fns, consts.len(), light)).collect();
+    let mut parties: Vec<PartySpec> = (0..nparties).map(|_| draw_party(&mut p, &fns, consts.len(), light)).collect();
+    // process history: some parties compiled something else before
+    let adv = adversarial_warm(&src);
+    for party in parties.iter_mut() {
+        if p.chance(1, 3) {
+            let other = if p.chance(1, 2) { adv.clone() } else { gen::program(&mut p) };
+            party.steps.insert(0, warm_step(other));
+        }
+    }
+    // two parties that are real, fresh OS processes with the SAME keys: one cold, one with a history
+    if family != "ill_typed" && !light {
+        let keys = Keys { k0: p.next_u64(), k1: p.next_u64(), drift: 0 };
+        let o = *p.pick(&Opts::all());
+        let target = simple_step(&fns[0], o);
+        let mut warm = vec![warm_step(adv)];
+        if p.chance(1, 2) {
+            warm.push(warm_step(gen::program(&mut p)));
+        }
+        warm.push(target.clone());
+        parties.push(PartySpec { keys, steps: vec![target], process: true });
+        parties.push(PartySpec { keys, steps: warm, process: true });
+    }
     (World { program: ProgSpec { name, src, consts }, parties }, family.to_string(), p)
 }
 
@@ -312,6 +427,7 @@ fn probe_parties(p: &mut Prng, n: usize, fn_name: &str, opts: Opts) -> Vec<Party
         .map(|_| PartySpec {
             keys: Keys { k0: p.next_u64(), k1: p.next_u64(), drift: 0 },
             steps: vec![simple_step(fn_name, opts)],
+            process: false,
         })
         .collect()
 }
@@ -332,6 +448,7 @@ pub fn minimise(w: &World, f: &Finding, p: &mut Prng) -> (World, Finding) {
     let (fs, _) = judge(&pw, &pr);
     let simple = fs.into_iter().find(|x| same_class(x, &class));
     let fixed_probes: Vec<PartySpec>;
+    let mut budget = 400;
     if let Some(sf) = simple {
         fixed_probes = probes;
         best_world = World {
@@ -340,14 +457,18 @@ pub fn minimise(w: &World, f: &Finding, p: &mut Prng) -> (World, Finding) {
         };
         best_finding = sf;
     } else {
-        // keep the original histories but only the two disagreeing parties
+        // keep the original histories (process parties, warm steps) but only the two disagreeing parties
         let two = World { program: w.program.clone(), parties: vec![w.parties[f.a.0].clone(), w.parties[f.b.0].clone()] };
         let r = run_world(&two);
-        if let Some(tf) = judge(&two, &r).0.into_iter().find(|x| same_class(x, &class)) {
-            best_world = two;
-            best_finding = tf;
+        match judge(&two, &r).0.into_iter().find(|x| same_class(x, &class)) {
+            Some(tf) => {
+                fixed_probes = two.parties.clone();
+                best_world = two;
+                best_finding = tf;
+                budget = 60;
+            }
+            None => return (best_world, best_finding),
         }
-        return (best_world, best_finding);
     }
     // 2. ddmin over lines; predicate: some pair among the fixed probes still disagrees in the same class
     let test = |src: &str, consts: &[ConstSpec]| -> Option<(World, Finding)> {
@@ -365,7 +486,6 @@ pub fn minimise(w: &World, f: &Finding, p: &mut Prng) -> (World, Finding) {
     let mut lines: Vec<String> = w.program.src.lines().map(|s| s.to_string()).collect();
     let consts = w.program.consts.clone();
     let mut chunk = (lines.len() / 2).max(1);
-    let mut budget = 400;
     while chunk >= 1 && budget > 0 {
         let mut i = 0;
         let mut progressed = false;
@@ -439,7 +559,7 @@ pub fn run_case(plan: &Plan, seed: u64, idx: u64) -> CaseResult {
     let mut ok_groups: BTreeSet<u64> = BTreeSet::new();
     // reach: (fn, opts, mode, call index, site) -> (max keys, distinct raw orders seen across parties)
     #[allow(clippy::type_complexity)]
-    let mut reach: BTreeMap<(String, String, String, usize, &'static str), (usize, BTreeSet<u64>)> = BTreeMap::new();
+    let mut reach: BTreeMap<(String, String, String, usize, String), (usize, BTreeSet<u64>)> = BTreeMap::new();
     for (party, pr) in w.parties.iter().zip(r.iter()) {
         match pr {
             Ok(outs) => {
@@ -447,7 +567,7 @@ pub fn run_case(plan: &Plan, seed: u64, idx: u64) -> CaseResult {
                     evaluations += 1;
                     for (ci, pr) in probes.iter().enumerate() {
                         let e = reach
-                            .entry((s.fn_name.clone(), s.opts.name(), format!("{:?}", s.mode), ci, pr.site))
+                            .entry((s.fn_name.clone(), s.opts.name(), format!("{:?}", s.mode), ci, pr.site.clone()))
                             .or_insert_with(|| (0usize, BTreeSet::new()));
                         e.0 = e.0.max(pr.keys);
                         e.1.insert(pr.fp);
@@ -578,7 +698,7 @@ pub fn fidelity_child() -> i32 {
         return 2;
     }
     let outs = run_steps(&w.program, &party.steps);
-    println!("{}", serde_json::to_string(&fidelity_view(&outs)).unwrap());
+    println!("{}", serde_json::to_string(&outs).unwrap());
     0
 }
 
@@ -623,7 +743,9 @@ pub fn fidelity(plan: &Plan, seed: u64, n: u64) -> Result<(u64, u64), String> {
             skipped += 1;
             continue;
         }
-        let got: Vec<String> = serde_json::from_slice(out.stdout.split(|b| *b == b'\n').next().unwrap_or(b"[]")).map_err(|e| format!("fidelity child output: {e}"))?;
+        let got_full: Vec<(Outcome, Vec<ProbeRec>)> =
+            serde_json::from_slice(out.stdout.split(|b| *b == b'\n').next().unwrap_or(b"[]")).map_err(|e| format!("fidelity child output: {e}"))?;
+        let got = fidelity_view(&got_full);
         if got != want {
             return Err(format!(
                 "thread-as-process abstraction broken for case {idx}: in-thread party gave {want:?}, fresh process with the same keys gave {got:?}"
